@@ -421,6 +421,24 @@ func (s *Sim) mirrorLocked(v Violation) {
 		}
 		return
 	}
+	if prop == "C15" && s.Stats["fault.malformed_event"]+s.Stats["fault.malformed_answer"]+s.Stats["fault.malformed_reply"] > 0 {
+		// C15.b (discarded as a whole) and C15.a (no stall): with malformed
+		// messages treated as absent every other oracle keeps holding
+		if v.Prop == "C01" || v.Prop == "C03" || v.Prop == "C13" || (v.Prop == "C07" && v.Clause == "b") || (v.Prop == "C09" && (v.Clause == "c" || v.Clause == "e" || v.Clause == "g")) || v.Prop == "C12" {
+			cl := "b"
+			if v.Prop == "C07" {
+				cl = "a"
+			}
+			m := Violation{Prop: "C15", Clause: cl, Shape: v.Prop + "." + v.Clause + "-" + v.Shape, Msg: "in a history with malformed service messages: " + v.Msg, Step: v.Step}
+			for _, o := range s.Viols {
+				if o.Key() == m.Key() {
+					return
+				}
+			}
+			s.Viols = append(s.Viols, m)
+		}
+		return
+	}
 	if prop != "C11" || s.Stats["fault.client_disconnect"] == 0 {
 		return
 	}
